@@ -20,7 +20,7 @@ try:
         print("patch does not apply:", r.stderr)
         sys.exit(2)
     subprocess.run(["rsync", "-a", "--exclude", "target", "--exclude", ".work", "--exclude", ".git", "--exclude", "replays",
-                    "--exclude", "seeded", "/verif/", verif + "/"], check=True)
+                    "--exclude", "seeded", os.environ.get("VERIF_SRC", "/verif").rstrip("/") + "/", verif + "/"], check=True)
     ct = os.path.join(verif, "harness", "Cargo.toml")
     txt = open(ct).read().replace('"/repo/crates/svgbob"', '"%s/crates/svgbob"' % repo)
     open(ct, "w").write(txt)
